@@ -441,5 +441,58 @@ pub fn run(rep: &mut Report, driver: &str, workers: usize, thorough: bool, seed:
             }
         }
     }
+    // (g) many evaluations in flight at once on this one thread: 800 evaluations of a rule nested 40 operators deep are
+    //     each polled up to their suspension inside a user function, and only then resumed — every frame of every one of them
+    //     is live at the same time.  A counter, guard or budget that is per thread or per ruleset rather than per evaluation
+    //     adds them up.
+    {
+        let depth = 40usize;
+        let mut e = call("g", reff("x"));
+        for _ in 0..depth {
+            e = mk_bin("add", e, lit(Value::Int(1)));
+        }
+        let mut e2 = call("g", reff("x"));
+        for _ in 0..depth {
+            e2 = Expr::Vec(vec![e2]);
+        }
+        let rules = vec![e, e2];
+        let mut g = FnSpec::new("g", false, FnKind::Id);
+        g.pends = 1;
+        let env = EnvSpec { syms: vec![], fns: vec![g] };
+        let facts = crate::pool::map(&[("x", Value::Int(5))]);
+        let shared = Arc::new(Shared::default());
+        let r = catch_unwind(AssertUnwindSafe(|| {
+            let rs = build_ruleset(&rules, &env, &shared).expect("ruleset");
+            let alone = block_on(mk_fut(&rs, &facts));
+            let n = if thorough { 4000 } else { 800 };
+            let mut futs: Vec<Fut<'_>> = (0..n).map(|_| mk_fut(&rs, &facts)).collect();
+            let mut outs: Vec<Option<String>> = vec![None; n];
+            // first poll of each: all suspended inside g, at depth 40
+            for (i, f) in futs.iter_mut().enumerate() {
+                outs[i] = poll_once(f);
+            }
+            let mut rounds = 0;
+            while outs.iter().any(|o| o.is_none()) && rounds < 1000 {
+                rounds += 1;
+                for (i, f) in futs.iter_mut().enumerate() {
+                    if outs[i].is_none() {
+                        outs[i] = poll_once(f);
+                    }
+                }
+            }
+            let bad: Vec<(usize, String)> = outs.into_iter().enumerate().filter_map(|(i, o)| match o { Some(o) if o == alone => None, Some(o) => Some((i, o)), None => Some((i, "never completed".to_string())) }).collect();
+            (alone, bad, n)
+        }));
+        sr.count("mass-interleaving", true);
+        sr.hist("kind", "many-evaluations-in-flight");
+        match r {
+            Err(p) => rep.add_finding(Finding { kind: "impl-violates-property".into(), stream: "poll-schedules".into(), case: "mass-interleaving".into(), human: "800 evaluations of a rule nested 40 deep, all suspended at once on one thread".into(), impl_out: format!("PANIC {}", panic_msg(p)), model_out: String::new(), predicate: "an evaluation's outcomes do not depend on what else is in flight".into(), signature: "C12 mass-interleaving".into() }),
+            Ok((alone, bad, n)) => {
+                if let Some((i, got)) = bad.first() {
+                    rep.add_finding(Finding { kind: "impl-violates-property".into(), stream: "poll-schedules".into(), case: "mass-interleaving".into(), human: format!("{} evaluations of a rule nested {} deep, all suspended at once on one thread: {} of them differ from the evaluation run alone (first: #{})", n, depth, bad.len(), i), impl_out: got.chars().take(300).collect(), model_out: alone.chars().take(300).collect(), predicate: "an evaluation's outcomes do not depend on what else is in flight (schedule independence)".into(), signature: "C12 mass-interleaving".into() });
+                }
+            }
+        }
+    }
     rep.streams.push(sr);
 }
